@@ -117,6 +117,17 @@ def run(tier, seed, broken_proof=False):
         depth = rng.choice([1, 2, 2, 3] if tier == "quick" else [1, 2, 3, 3, 4])
         b = gen_formula(rng, n, depth, 0.12)
         a = gen_formula(rng, n, depth, 0.12)
+        if i % 5 == 4:      # constant-heavy: (negated) Top / Bottom mixed with literals in one clause, every order
+            def cf(d):
+                r = rng.random()
+                if d == 0 or r < 0.35:
+                    t = rng.random()
+                    k = T if t < 0.2 else F if t < 0.4 else Not(T) if t < 0.6 else Not(F) if t < 0.8 else common.gen_lit(rng, n)
+                    return k
+                x_, y_ = cf(d - 1), cf(d - 1)
+                return Or(x_, y_) if r < 0.75 else And(x_, y_)
+            b = cf(2) if rng.random() < 0.6 else And(common.gen_lit(rng, n), cf(2))
+            a = cf(2) if rng.random() < 0.4 else common.gen_lit(rng, n)
         if i < 12:  # directed: constants in every position, repeated atoms, tautologies, contradictions
             x, y = V(0), V(1 % n) if n > 1 else V(0)
             b, a = [(x, T), (T, x), (F, x), (x, F), (And(x, T), Or(y, F)), (Or(x, Not(x)), And(y, Not(y))), (And(x, x), Or(x, x)),
